@@ -88,6 +88,17 @@ CLAIMED = {
                   "serialize-deserialize-compare run on the implementation alone (this found the duplicate ValueInCsr tag, fixed).",
              design="8/C19", note=NOTE + "The `node` field (parser node serialization) is compared differentially, not modelled in the round-trip theorems; serde_yaml/serde_json themselves are trusted.",
              technique="Coq proof (codec round trip) + differential correspondence against serde output"),
+ "C10": dict(text="Determinism / no duplicates: the parts of the pipeline that are functions of their input are modelled as Gallina functions (the model has "
+                  "no hash maps; every place where the Rust code iterates a HashSet/HashMap is either order-insensitive in the model or takes the choice as "
+                  "an explicit parameter). Coq theorem C10_order proves for ANY item list that the output ordering step (files by name, then start/end "
+                  "offset, stable) yields a sorted permutation in which items of equal key keep their production order - so the printed order is a "
+                  "function of the produced items alone. That the Rust code makes the same choice in every run (no dependence on hash seeds or UUIDs) is "
+                  "NOT provable from a model without hash maps: it is explored by linting each program 5-8 times in one process (fresh UUIDs and hash "
+                  "seeds) and 3 times in separate rva processes in 5 output modes, comparing item by item in order and searching for duplicates. This "
+                  "found five genuine defects, all repaired (fix commits).",
+             design="8/C10", note=NOTE + "Partial: independence from hash iteration order is observed over repeated runs, not proved; the theorem covers the ordering step and, "
+                  "through the correspondence, that the model (a function) predicts the implementation's items.",
+             technique="Coq proof (stable sort: permutation, sortedness, stability) + repeated-run differential exploration"),
  "C01": dict(text="Value analysis soundness: Coq theorem C01_claims_hold_on_executions proves, over an RV32IM machine written from the ISA (arithmetic = the "
                   "FoldSpec of C08, byte-addressed little-endian memory, calls summarised by the calling convention, ecalls by the RARS table), that for ANY "
                   "graph whose facts satisfy the analysis equations and any execution of any length from an entry node inside the supported subset, every "
